@@ -171,8 +171,19 @@ func (P *Prog) register(cf *ContractFile, tp *types.Package) error {
 		switch fc.Kind {
 		case "func":
 			k := cf.Pkg + "|" + fc.Key
-			if _, dup := P.contracts[k]; dup {
-				return fmt.Errorf("%s: duplicate contract for %s", cf.Path, fc.Key)
+			if prev, dup := P.contracts[k]; dup {
+				// a second block adds clauses to the first
+				prev.Requires = append(prev.Requires, fc.Requires...)
+				prev.Ensures = append(prev.Ensures, fc.Ensures...)
+				prev.Uses = append(prev.Uses, fc.Uses...)
+				prev.Calls = append(prev.Calls, fc.Calls...)
+				prev.Modifies = append(prev.Modifies, fc.Modifies...)
+				for _, pr := range fc.Props {
+					if !contains(prev.Props, pr) {
+						prev.Props = append(prev.Props, pr)
+					}
+				}
+				continue
 			}
 			P.contracts[k] = fc
 		case "iface":
